@@ -5,6 +5,6 @@ CONSTANTS
  PSplit = 6
  MaxLenHigh = 5
  Exps <- ExpsFull
- Precs <- PrecsHigh
+ Precs = {1}
 INVARIANT Lemmas
 CHECK_DEADLOCK FALSE
